@@ -612,6 +612,7 @@ MID = {
     "C04": (_BUF + _SET + ["m_buffer_add_af", "m_add_af"], "Properties_Mid_C04"),
     "C06": (_TXT, "Properties_Mid_C06"),
     "C07": (["m_string_convert", "m_update_single", "m_string_convert_n", "m_update_single_n"], "Properties_Mid_C07"),
+    "C08": (_TXT + ["m_string_get_available", "m_string_clear", "m_group2_parse"], "Properties_Mid_C08"),
     "C09": (_BUF, "Properties_Mid_C09"),
     "C10": (["m_buffer_add_af"], "Properties_Mid_C10"),
     "C11": (_BUF + _SET + ["m_ecc_lookup", "m_group1_parse"], "Properties_Mid_C11"),
